@@ -15,7 +15,7 @@
 (* predicts; the harness runs it against the real module-global converter. *)
 (***************************************************************************)
 EXTENDS Codec, Json
-CONSTANTS DStyle, AStyle, MaxLen, Design, Extra   \* Design: "ok" | "top_only" | "by_name"; Extra: subset of {"list", "bad", "second", "twin"}
+CONSTANTS DStyle, AStyle, MaxLen, Design, Extra   \* Design: "ok" | "top_only" | "by_name"; Extra: subset of {"list", "bad", "second", "twin", "hier", "nobase"}
 VARIABLES results
 mvars == <<hooks, hist, last, results>>
 
@@ -32,16 +32,32 @@ TwinStyle == IF DStyle = "kw" THEN "camel" ELSE "kw"
 DxCls == [meta |-> StyleMeta[TwinStyle], pyname |-> "D",
           fields |-> <<Fld(PyName("D", TwinStyle, 1), WireName("D", TwinStyle, 1), LeafT("int"), TRUE),
                        Fld(PyName("D", TwinStyle, 3), WireName("D", TwinStyle, 3), LeafT("date"), FALSE)>>]
-MCcl == [n \in {"A", "B", "D"} \cup (IF "twin" \in Extra THEN {"Dx"} ELSE {}) |->
-           IF n = "A" THEN ACls ELSE IF n = "B" THEN BCls ELSE IF n = "D" THEN DCls ELSE DxCls]
+\* "hier": a class hierarchy H <- Hs (extended Meta, one more mapped field), H <- Ht (sibling: own Meta, overrides
+\* H's second field); calls on the base, the subclass and the sibling in every order.  "nobase": leave out A/B/D calls
+HCls  == [meta |-> StyleMeta[AStyle],
+          fields |-> <<Fld(PyName("A", AStyle, 1), WireName("A", AStyle, 1), LeafT("str"), TRUE),
+                       Fld(PyName("A", AStyle, 2), WireName("A", AStyle, 2), LeafT("int"), FALSE)>>]
+HsCls == [meta |-> "extend", extends |-> "H", mixin |-> FALSE,
+          fields |-> <<Fld(PyName("E", "camel", 1), WireName("E", "camel", 1), LeafT("date"), FALSE)>>]
+HtCls == [meta |-> "own", extends |-> "H", mixin |-> TRUE,
+          fields |-> <<Fld(PyName("E", "kw", 1), WireName("E", "kw", 1), LeafT("bool"), FALSE),
+                       Fld(PyName("A", AStyle, 2), WireName("A", AStyle, 2), LeafT("str"), FALSE)>>]
+MCcl == [n \in {"A", "B", "D"} \cup (IF "twin" \in Extra THEN {"Dx"} ELSE {}) \cup (IF "hier" \in Extra THEN {"H", "Hs", "Ht"} ELSE {}) |->
+           IF n = "A" THEN ACls ELSE IF n = "B" THEN BCls ELSE IF n = "D" THEN DCls ELSE IF n = "Dx" THEN DxCls
+           ELSE IF n = "H" THEN HCls ELSE IF n = "Hs" THEN HsCls ELSE HtCls]
 RegisterNested == Design # "top_only"
 
+MCflat == Flat(MCcl)   \* hierarchies resolved once (constant)
+
 Types == <<ClsT("A"), ClsT("B"), ClsT("D")>>
-S(T, m) == [op |-> "S", ty |-> T, arg |-> Rep(MCcl, T, m)]
-U(T, m) == [op |-> "U", ty |-> T, arg |-> Decode(MCcl, T, Rep(MCcl, T, m))]
-BadArg == LET ms == {m \in Mutants(MCcl, ClsT("A")) : m.what = "missing" /\ Len(FieldSteps(m.steps)) = 2}
+S(T, m) == [op |-> "S", ty |-> T, arg |-> Rep(MCflat, T, m)]
+U(T, m) == [op |-> "U", ty |-> T, arg |-> Decode(MCflat, T, Rep(MCflat, T, m))]
+BadArg == LET ms == {m \in Mutants(MCflat, ClsT("A")) : m.what = "missing" /\ Len(FieldSteps(m.steps)) = 2}
           IN (CHOOSE m \in ms : TRUE).j
-Calls0 == <<S(Types[1], 1), U(Types[1], 1), S(Types[2], 1), U(Types[2], 1), S(Types[3], 1), U(Types[3], 1)>>
+Calls0 == (IF "nobase" \in Extra THEN <<>>
+           ELSE <<S(Types[1], 1), U(Types[1], 1), S(Types[2], 1), U(Types[2], 1), S(Types[3], 1), U(Types[3], 1)>>)
+          \o (IF "hier" \in Extra THEN <<S(ClsT("H"), 1), U(ClsT("H"), 1), S(ClsT("Hs"), 1), U(ClsT("Hs"), 1),
+                                          S(ClsT("Ht"), 1), U(ClsT("Ht"), 1)>> ELSE <<>>)
           \o (IF "list" \in Extra THEN <<S(ListT(ClsT("D")), 1)>> ELSE <<>>)
           \o (IF "bad" \in Extra THEN <<[op |-> "S", ty |-> ClsT("A"), arg |-> BadArg]>> ELSE <<>>)
           \o (IF "second" \in Extra THEN <<S(Types[2], 2), U(Types[1], 2)>> ELSE <<>>)
@@ -49,32 +65,32 @@ Calls0 == <<S(Types[1], 1), U(Types[1], 1), S(Types[2], 1), U(Types[2], 1), S(Ty
 MCCalls == [i \in 1..Len(Calls0) |-> [id |-> i, op |-> Calls0[i].op, ty |-> Calls0[i].ty, arg |-> Calls0[i].arg]]
 CallSet == {MCCalls[i] : i \in 1..Len(MCCalls)}
 
-ASSUME PrintT("SCEN " \o ToJson([classes |-> MCcl, calls |-> MCCalls]))
+ASSUME PrintT("SCEN " \o ToJson([classes |-> WithBuild(MCcl), calls |-> MCCalls]))
 
 Init == RegInit /\ results = <<>>
 EmitWhenComplete == Len(hist') = MaxLen => PrintT("HIST " \o ToJson([h |-> hist', exp |-> results']))
 DoStructure ==
   /\ Len(hist) < MaxLen
   /\ \E i \in 1..Len(MCCalls) :
-        /\ (IF Design = "by_name" THEN StructureByName(MCcl, CallSet, MCCalls[i]) ELSE Structure(MCcl, MCCalls[i], RegisterNested))
+        /\ (IF Design = "by_name" THEN StructureByName(MCflat, CallSet, MCCalls[i]) ELSE Structure(MCflat, MCCalls[i], RegisterNested))
         /\ results' = Append(results, last'.res)
   /\ EmitWhenComplete
 DoUnstructure ==
   /\ Len(hist) < MaxLen
-  /\ \E i \in 1..Len(MCCalls) : Unstructure(MCcl, MCCalls[i], RegisterNested) /\ results' = Append(results, last'.res)
+  /\ \E i \in 1..Len(MCCalls) : Unstructure(MCflat, MCCalls[i], RegisterNested) /\ results' = Append(results, last'.res)
   /\ EmitWhenComplete
 Next == DoStructure \/ DoUnstructure
 Spec == Init /\ [][Next]_mvars
 
-InvHistoryIndependent == HistoryIndependent(MCcl, CallSet)
+InvHistoryIndependent == HistoryIndependent(MCflat, CallSet)
 
 \* the round-trip law for every conforming structure call, in the registry state that call would find
 LawsInEveryState ==
-  \A c \in {x \in CallSet : x.op = "S" /\ x.ty.k = "cls" /\ Conforms(MCcl, x.arg, x.ty)} :
-     LET hs == hooks \cup {<<"s", n>> : n \in Targets(MCcl, c.ty, RegisterNested)}
-         hu == hs \cup {<<"u", n>> : n \in Targets(MCcl, c.ty, RegisterNested)}
-         v  == Dec(MCcl, Registered(MCcl, "s", hs), c.ty, c.arg)
-     IN ~IsErr(v) /\ RoundTripOK(MCcl, c.ty, c.arg, Enc(MCcl, Registered(MCcl, "u", hu), c.ty, v))
+  \A c \in {x \in CallSet : x.op = "S" /\ x.ty.k = "cls" /\ Conforms(MCflat, x.arg, x.ty)} :
+     LET hs == hooks \cup {<<"s", n>> : n \in Targets(MCflat, c.ty, RegisterNested)}
+         hu == hs \cup {<<"u", n>> : n \in Targets(MCflat, c.ty, RegisterNested)}
+         v  == Dec(MCflat, Registered(MCflat, "s", hs), c.ty, c.arg)
+     IN ~IsErr(v) /\ RoundTripOK(MCflat, c.ty, c.arg, Enc(MCflat, Registered(MCflat, "u", hu), c.ty, v))
 
 PropHooksOnlyGrow == [][hooks \subseteq hooks']_mvars
 =============================================================================
